@@ -350,7 +350,7 @@ impl RtpsMessageRead {
 impl TryFrom<&[u8]> for RtpsMessageRead {
     type Error = RtpsMessageError;
 
-    fn try_from(mut v: &[u8]) -> RtpsMessageResult<Self> {
+    fn try_from(v: &[u8]) -> RtpsMessageResult<Self> {
         if v.len() >= 20 {
             if b"RTPS" == &[v[0], v[1], v[2], v[3]] {
                 let major = v[4];
@@ -366,11 +366,12 @@ impl TryFrom<&[u8]> for RtpsMessageRead {
                     vendor_id,
                     guid_prefix,
                 };
-                v.consume(20);
+                let mut remaining = &v[20..];
 
                 const MAX_SUBMESSAGES: usize = 2_usize.pow(16);
                 let mut submessages = Vec::new();
                 for _ in 0..MAX_SUBMESSAGES {
+                    let mut v = remaining;
                     if v.len() < 4 {
                         break;
                     }
@@ -380,6 +381,14 @@ impl TryFrom<&[u8]> for RtpsMessageRead {
                         if v.len() < submessage_length {
                             break;
                         }
+                        // DATA and DATA_FRAG submessages can have a length of 0 meaning use everything until the end
+                        // of the buffer; every other parser only sees the bytes of its own submessage
+                        if submessage_length == 0
+                            && matches!(submessage_header.submessage_id(), DATA | DATA_FRAG)
+                        {
+                            submessage_length = v.len();
+                        }
+                        let (v, rest) = v.split_at(submessage_length);
                         let submessage = match submessage_header.submessage_id() {
                             ACKNACK => AckNackSubmessage::try_from_bytes(&submessage_header, v)
                                 .map(RtpsSubmessageReadKind::AckNack),
@@ -416,21 +425,10 @@ impl TryFrom<&[u8]> for RtpsMessageRead {
                             _ => Err(RtpsMessageError::UnknownMessage),
                         };
                         if let Ok(submessage) = submessage {
-                            // DATA and DATA_FRAG submessages can have a length of 0 meaning use everything until the end
-                            // of the buffer
-                            if submessage_length == 0
-                                && (matches!(
-                                    submessage,
-                                    RtpsSubmessageReadKind::Data(_)
-                                        | RtpsSubmessageReadKind::DataFrag(_)
-                                ))
-                            {
-                                submessage_length = v.len();
-                            }
                             submessages.push(submessage);
                         }
 
-                        v.consume(submessage_length);
+                        remaining = rest;
                     }
                 }
                 Ok(Self {
